@@ -243,6 +243,19 @@ CHECKS["C16"] = (
     "DESIGN.md §3 C16",
 )
 
+CHECKS["C09"] = (
+    "exploration",
+    "constructor reference model (default resolution over the declared MRO, ownership-directed initialisation, hand-written parent constructors with call log) compared with the state of every freshly constructed instance",
+    "Hierarchies of depth <= 3 are generated (one or two spec parents with generated or hand-written constructors of the documented "
+    "shape, init=False attributes, key with/without default, a child that re-declares / re-defaults / adds attributes with optional "
+    "overflow attribute and __post_init__, an optional plain or spec grandchild). For every class and every subset of init-enabled "
+    "keywords (exhaustive up to 5 attributes), plus one non-conforming keyword, unknown keywords, key positional/keyword/missing: the "
+    "instance state, the arguments each hand-written parent constructor received, the overflow dict and the __post_init__ count and "
+    "timing must equal the model; rejections must be TypeError (ValueError allowed for ill-typed values).",
+    "Trusted: the model in checks/c09.py. Not judged: value of init=False attributes, init=False names passed to a class with an overflow attribute, the overflow attribute's own name.",
+    "DESIGN.md §3 C09",
+)
+
 NOT_YET = {}
 
 
